@@ -727,8 +727,14 @@ func contextAfterText(c context, s []byte) (context, int) {
 		ret.scriptType = strings.ToLower(string(s[:i]))
 	}
 	// Save the link element's rel attribute value if we are parsing it for the first time.
-	if c.state == stateAttr && c.element.name == "link" && c.attr.name == "rel" {
-		ret.linkRel = " " + strings.Join(strings.Fields(strings.TrimSpace(strings.ToLower(string(s[:i])))), " ") + " "
+	// Only the first rel attribute of the element counts, as in a browser.
+	if c.state == stateAttr && c.element.name == "link" && c.attr.name == "rel" && c.linkRel == "" {
+		if c.attr.dynamic || c.attr.ambiguousValue {
+			// The value is not known at parse time.
+			ret.linkRel = unknownLinkRel
+		} else {
+			ret.linkRel = " " + strings.Join(strings.Fields(strings.TrimSpace(strings.ToLower(html.UnescapeString(c.attr.value+string(s[:i]))))), " ") + " "
+		}
 	}
 	if c.delim != delimSpaceOrTagEnd {
 		// Consume any quote.
